@@ -369,7 +369,7 @@ def shard(ctx, n, max_ops):
 def run(ctx):
     ctx.parallel(const_shard, 1, 0)
     if ctx.quick:
-        ctx.parallel(shard, 16, 150, 8)
+        ctx.parallel(shard, 16, 250, 8)
     else:
         ctx.parallel(shard, 16, 6000, 10)
         ctx.parallel(shard, 16, 1500, 25)
